@@ -27,7 +27,8 @@ RULE = ('Fault enumeration. (a) CSVWriter over a stream that raises BrokenPipeEr
         'records read before the failure are a prefix of the records of the valid prefix. (c) /proc/self/fd (numbers and targets) before == after for every scenario '
         '(success, parsing error, runtime error at record k, IO errors, with and without join) of query_csv and query_sqlite_to_csv. (d) a user writer returning False '
         'from its k-th write, for every k, under every query shape: trace matches set_header? write* finish?, no write after a False, finish exactly once iff success. '
-        'Non-trivial = a fault strictly inside the output / file (not at position 0 or the end); fault points are distinct by construction.')
+        'Non-trivial = a fault strictly inside the output / file (not at position 0 or the end); fault points are distinct by construction.'
+        ' Later additions: empty-result query shapes, the exception held while descriptors are compared, every open() failing in turn, an owned stream over a real broken pipe, the command line reading a damaged table from standard input under four locale settings.')
 ASSUMPTIONS = ['sys.stdout is swapped for a dummy while the engine runs (CSVWriter.finish may close sys.stdout after a failed flush)',
                'Python decodes through io.TextIOWrapper, so records before a bad byte are only observable when the byte lies beyond the first 8 KiB']
 
